@@ -13,10 +13,11 @@ Definition obs_spec_parse (s : list N) : list N :=
   | None => asc "E"
   | Some sp => fields [asc "OK"; op_txt (sp_op sp); sp_text sp; spec_str sp; show_bool (auto_pre sp)]
   end.
-Definition obs_spec_contains (s arg item : list N) : list N :=
+(* [ov]: the object's own pre-release setting (constructor keyword or attribute assigned later), "" = none *)
+Definition obs_spec_contains (s arg item ov : list N) : list N :=
   match Specifier s with
   | None => asc "ES"
-  | Some sp => show_outcome (contains sp None (parse_tri arg) item)
+  | Some sp => show_outcome (contains sp (parse_tri ov) (parse_tri arg) item)
   end.
 Definition obs_spec_sem (s item : list N) : list N :=
   match Specifier s with
@@ -37,7 +38,7 @@ Definition obs_spec_key (a : list N) : list N :=
 
 Definition run_spec (cmd : list N) (args : list (list N)) : option (list N) :=
   if seqb cmd (asc "sp.parse") then Some (obs_spec_parse (nth_str 0 args))
-  else if seqb cmd (asc "sp.contains") then Some (obs_spec_contains (nth_str 0 args) (nth_str 1 args) (nth_str 2 args))
+  else if seqb cmd (asc "sp.contains") then Some (obs_spec_contains (nth_str 0 args) (nth_str 1 args) (nth_str 2 args) (nth_str 3 args))
   else if seqb cmd (asc "sp.eq") then Some (obs_spec_eq (nth_str 0 args) (nth_str 1 args))
   else if seqb cmd (asc "sp.sem") then Some (obs_spec_sem (nth_str 0 args) (nth_str 1 args))
   else None.
